@@ -245,6 +245,11 @@ func (r *Router) SendPacket(p simnet.Packet) error {
 			if len(data) > 0 {
 				d2 := append([]byte(nil), data...)
 				idx := ((f.Arg % len(d2)) + len(d2)) % len(d2)
+				if f.Arg >= 5 && len(d2) > 5 {
+					// an index that was chosen outside the version field stays outside it when it wraps
+					// around a short datagram (a flipped version word can forge a Version Negotiation packet)
+					idx = 5 + (f.Arg-5)%(len(d2)-5)
+				}
 				m := byte(f.Arg2)
 				if m == 0 {
 					m = 1
